@@ -212,76 +212,6 @@ theorem C07_angle_aprox (d : Int) (h1 : -2147483648 ≤ d) (h2 : d ≤ 214748364
   obtain ⟨c, hc, _⟩ := C19_cos_aprox d h1 h2
   exact ⟨⟨s, hs⟩, ⟨c, hc⟩⟩
 
-theorem list_all_getD (L : List Int) (P : Int → Bool) (h : L.all P = true) (i : Nat) (hi : i < L.length) :
-    P (L.getD i 0) = true := by
-  rw [List.all_eq_true] at h
-  apply h
-  rw [List.getD_eq_getElem?_getD, List.getElem?_eq_getElem hi]
-  exact List.getElem_mem hi
-
-set_option maxRecDepth 1000000 in
-theorem sqrtTab_bounds : square_root_tableL.all (fun e => decide (0 ≤ e ∧ e < 1048576)) = true := by decide +kernel
-set_option maxRecDepth 1000000 in
-theorem tanTab_bounds : tan_tableL.all (fun e => decide (-4611686018427387904 < e ∧ e < 4611686018427387904)) = true := by decide +kernel
-
-theorem squareRootTab_ok (i : Int) (h0 : 0 ≤ i) (h1 : i < 256) : ∃ e, squareRootTab i = .ok e ∧ 0 ≤ e ∧ e < 1048576 := by
-  have hi : i.toNat < square_root_tableL.length := by rw [sqrtTab_len]; omega
-  have := idx_table square_root_tableL i.toNat hi
-  rw [Int.toNat_of_nonneg h0] at this
-  refine ⟨_, this, ?_⟩
-  have hb := list_all_getD _ _ sqrtTab_bounds i.toNat hi
-  simpa using hb
-
-theorem tanTab_ok (i : Int) (h0 : 0 ≤ i) (h1 : i < 256) :
-    ∃ e, tanTab i = .ok e ∧ -4611686018427387904 < e ∧ e < 4611686018427387904 := by
-  have hi : i.toNat < tan_tableL.length := by rw [tanTab_len]; omega
-  have := idx_table tan_tableL i.toNat hi
-  rw [Int.toNat_of_nonneg h0] at this
-  refine ⟨_, this, ?_⟩
-  have hb := list_all_getD _ _ tanTab_bounds i.toNat hi
-  simpa using hb
-
-theorem rbitScanClz_range (x : Int) (h0 : 0 ≤ x) (h1 : x < 4294967296) : 0 ≤ rbitScanClz x ∧ rbitScanClz x ≤ 32 := by
-  unfold rbitScanClz clz32
-  by_cases hz : x = 0
-  · subst hz; simp
-  · rw [if_pos hz, if_neg (by omega)]
-    have hx : x.toNat ≠ 0 := by omega
-    have : Nat.log2 x.toNat < 32 := (Nat.log2_lt hx).mpr (by omega)
-    omega
-
-theorem rbitScanClz_le (x : Int) (k : Nat) (h0 : 0 ≤ x) (h1 : x < 2 ^ k) : rbitScanClz x ≤ k := by
-  unfold rbitScanClz clz32
-  by_cases hz : x = 0
-  · subst hz; simp
-  · rw [if_pos hz, if_neg (by omega)]
-    have hx : x.toNat ≠ 0 := by omega
-    have h1' : x.toNat < 2 ^ k := by
-      have : ((x.toNat : ℕ) : Int) < ((2 ^ k : ℕ) : Int) := by rw [Int.toNat_of_nonneg h0]; push_cast; exact h1
-      exact_mod_cast this
-    have : Nat.log2 x.toNat < k := (Nat.log2_lt hx).mpr h1'
-    omega
-
-theorem andFE_range (y : Int) (h0 : 0 ≤ y) (h1 : y ≤ 34) : 0 ≤ andFE y ∧ andFE y ≤ y ∧ andFE y % 2 = 0 := by
-  unfold andFE; omega
-
-
-theorem pow_even_bound (c : Int) (h0 : 0 ≤ c) (h1 : c ≤ 16) : (1 : Int) ≤ 2 ^ c.toNat ∧ (2 : Int) ^ c.toNat ≤ 65536 := by
-  have hc : c.toNat ≤ 16 := by omega
-  constructor
-  · have : (0 : Int) < 2 ^ c.toNat := by positivity
-    omega
-  · have : (2 : Int) ^ c.toNat ≤ 2 ^ 16 := by exact_mod_cast Nat.pow_le_pow_right (by norm_num : 0 < 2) hc
-    norm_num at this; exact this
-
-theorem shr64_ok (x r : Int) (h : 0 ≤ r ∧ r < 64) : shr64 x r = .ok (x / 2 ^ r.toNat) := by
-  unfold shr64; rw [if_pos h]; rfl
-theorem shrU64_ok (x r : Int) (h : 0 ≤ r ∧ r < 64) : shrU64 x r = .ok (x / 2 ^ r.toNat) := by
-  unfold shrU64; rw [if_pos h]; rfl
-theorem shl64_ok (x r : Int) (h : 0 ≤ r ∧ r < 64) (hx : 0 ≤ x) (hp : x * 2 ^ r.toNat < two64) :
-    shl64 x r = .ok (toI64 (x * 2 ^ r.toNat)) := by
-  unfold shl64; rw [if_pos h, if_neg (by omega), if_neg (by omega)]; rfl
-
 theorem C07_sqrt_aprox (v : Int) (hv : dom v) : ∃ r, sqrtAprox v ⇓ r := by
   unfold dom at hv
   unfold sqrtAprox
